@@ -1889,19 +1889,13 @@ Qed.
 Lemma assign_op_real c o : assign_op (token c) = Some o -> realb (token c) = true.
 Proof. destruct (token c) as [| | | | | |k|]; try discriminate. destruct k; try discriminate; reflexivity. Qed.
 
-Lemma stmt_assignment_ok c : bounded (6 * sg c + 3) (StL c) (nb c) (stmt_assignment T c).
+Lemma b_call_loop M p l c :
+  6 * sg c + 1 < M ->
+  bounded M (fun x : expr * ctx => le_ctx c (snd x)) (nb c) (call_E (QLoop p l c)).
 Proof.
-  unfold stmt_assignment.
-  apply (bounded_bind _ (fun x : assignable * ctx => ltm c (snd x)) (nb c));
-    [apply assignable_p_ok; [apply le_refl|lia]|trivial|].
-  intros [target c1] H1. cbn [snd] in H1.
-  destruct (assign_op (token c1)) as [op|] eqn:Ao; [|apply b_raise'; apply ltm_le; exact H1].
-  pose proof (skip1_ltm c1 (assign_op_real c1 op Ao)) as H2.
-  assert (H3 : ltm c (skip 1 c1)) by (eapply ltm_le_trans; [exact H1|apply ltm_le; exact H2]).
-  apply (bounded_bind _ (fun x : expr * ctx => ltm (skip 1 c1) (snd x)) (nb c));
-    [apply b_expr; [apply ltm_le; exact H3|apply mu_lt; [apply ltm_lt; exact H3|lia]]|trivial|].
-  intros [v c2] H4. cbn [snd] in H4. apply b_ok. unfold StL. cbn [snd].
-  eapply ltm_le_trans; [exact H3|apply ltm_le; exact H4].
+  intros Hm. unfold call_E. apply b_call; [exact I|unfold mu; cbn [ctx_of rank]; lia| |].
+  - intros o Ho. destruct o; cbn [Post] in Ho; try contradiction. cbn [get_E]. apply b_ok. exact Ho.
+  - intros c' es Hc Hes. apply b_reraise; [exact Hc|exact Hes].
 Qed.
 
 Lemma stmt_assign_or_expr_ok c : bounded (6 * sg c + 3) (StL c) (nb c) (stmt_assign_or_expr T c).
@@ -1909,8 +1903,34 @@ Proof.
   unfold stmt_assign_or_expr.
   apply (bounded_ptry _ (fun x : assignable * ctx => ltm c (snd x)) (nb c));
     [apply assignable_p_ok; [apply le_refl|lia]| |].
-  - intros [a c1] _. destruct (assign_op (token c1)); [apply stmt_assignment_ok|apply stmt_expr_ok].
-  - intros c' es _ _. apply stmt_expr_ok.
+  - intros [target c1] H1. cbn [snd] in H1.
+    destruct (assign_op (token c1)) as [op|] eqn:Ao.
+    + pose proof (skip1_ltm c1 (assign_op_real c1 op Ao)) as H2.
+      assert (H3 : ltm c (skip 1 c1)) by (eapply ltm_le_trans; [exact H1|apply ltm_le; exact H2]).
+      apply (bounded_bind _ (fun x : expr * ctx => ltm (skip 1 c1) (snd x)) (nb c));
+        [apply b_expr; [apply ltm_le; exact H3|apply mu_lt; [apply ltm_lt; exact H3|lia]]|trivial|].
+      intros [v c2] H4. cbn [snd] in H4. apply b_ok. unfold StL. cbn [snd].
+      eapply ltm_le_trans; [exact H3|apply ltm_le; exact H4].
+    + pose proof (ta_good c) as G.
+      destruct (type_assignable c) as [[b0 cb]|ce es0| |]; cbn [good] in G; try contradiction.
+      * destruct (is_k KLeftBrace cb); [apply stmt_expr_ok|].
+        unfold expression_after.
+        apply (bounded_bind _ (fun x : expr * ctx => le_ctx c1 (snd x)) (nb c)).
+        -- eapply bounded_weaken; [apply (b_call_loop (6 * sg c + 3)); pose proof (ltm_sg _ _ H1); lia|lia|trivial|].
+           intros c' Hc'. eapply nb_mono; [apply ltm_le; exact H1|exact Hc'].
+        -- trivial.
+        -- intros [v c2] H4. cbn [snd] in H4. apply b_ok. unfold StL. cbn [snd]. eapply ltm_le_trans; [exact H1|exact H4].
+      * unfold expression_after.
+        apply (bounded_bind _ (fun x : expr * ctx => le_ctx c1 (snd x)) (nb c)).
+        -- eapply bounded_weaken; [apply (b_call_loop (6 * sg c + 3)); pose proof (ltm_sg _ _ H1); lia|lia|trivial|].
+           intros c' Hc'. eapply nb_mono; [apply ltm_le; exact H1|exact Hc'].
+        -- trivial.
+        -- intros [v c2] H4. cbn [snd] in H4. apply b_ok. unfold StL. cbn [snd]. eapply ltm_le_trans; [exact H1|exact H4].
+  - intros c' es Hc Hes. destruct (token c); try apply stmt_expr_ok.
+    pose proof (ta_good c) as G.
+    destruct (type_assignable c) as [[b0 cb]|ce es0| |]; cbn [good] in G; try contradiction.
+    + destruct (is_k KLeftBrace cb); [apply stmt_expr_ok|apply b_reraise; assumption].
+    + apply b_reraise; assumption.
 Qed.
 
 (* ---- enum variants and blob fields ---- *)
